@@ -787,6 +787,16 @@ loop:
 				}
 
 				if fr.Stream() < sc.lastID {
+					if fr.Type() == FrameWindowUpdate {
+						// An id below the highest accepted one that is neither
+						// in the table nor in the closed-stream memory was
+						// closed long enough ago to have dropped out of it (or
+						// was closed implicitly). A WINDOW_UPDATE may trail a
+						// closed stream and is ignored, like the PRIORITY and
+						// RST_STREAM frames handled above (RFC 7540 5.1).
+						continue
+					}
+
 					sc.writeGoAway(fr.Stream(), ProtocolError, "stream ID is lower than the latest")
 
 					if canCloseAfterGoAway() {
